@@ -101,7 +101,7 @@ theorem validateRequest_serial {s : State} {tag : Bytes} {r : Req} (h : validate
 
 theorem xqCheckSlot_query_iff (p : Bool) (c : Ctx) (cli : XqCli) (i : Nat) (srv : Svc)
     (hs : getSvc c.svcs i = some srv) :
-    (xqCheckSlot p c cli i).1.out = c.out ++ (if xqEligible p srv cli i c.req.flags then xqQueryLines srv cli c.req else []) := by
+    (xqCheckSlot p c cli i).1.out = c.out ++ (if xqEligible p srv cli i c.req.flags then xqQueryLines c.lim srv cli c.req else []) := by
   unfold xqCheckSlot
   simp only [hs]
   by_cases he : xqEligible p srv cli i c.req.flags = true
@@ -141,7 +141,7 @@ theorem eligible_needs (p : Bool) (srv : Svc) (cli : XqCli) (i : Nat) (f : Flags
       intro ht; rw [ht] at h2; exact absurd h2.2 (by decide)
 
 /-- field truncations of the payload: what `strncpy` keeps -/
-theorem xqUsername_len (r : Req) : (xqUsername r).length ≤ 10 := by
+theorem xqUsername_len (lim : Limits) (r : Req) : (xqUsername lim r).length ≤ lim.user := by
   unfold xqUsername; simp [List.length_take]; omega
 
 /-! ## C10: table accounting -/
@@ -192,7 +192,7 @@ theorem stats_in_use (s : State) :
 theorem classRules_first_match (st : Static) (pre post : List Rule) (rule : Rule) (c c' : Ctx) (rules' : List Rule)
     (hpre : ∀ q ∈ pre, ruleMatches c.svcs q c.req = false) (hm : ruleMatches c.svcs rule c.req = true)
     (h : classRules st (pre ++ rule :: post) c = .ok (c', rules')) :
-    c'.req.cls = strlcpy63 (rule.cls.getD rule.name)
+    c'.req.cls = strlcpyN c.lim.cls (rule.cls.getD rule.name)
       ∧ rules' = pre ++ { rule with assigned := rule.assigned + 1 } :: post := by
   induction pre generalizing rules' with
   | nil =>
@@ -203,9 +203,10 @@ theorem classRules_first_match (st : Static) (pre post : List Rule) (rule : Rule
     · simp only [ht, if_true, bind, Except.bind] at h
       split at h
       · cases h
-      · simp only [pure, Except.pure, Except.ok.injEq, Prod.mk.injEq] at h
+      · rename_i c1 hx
+        simp only [pure, Except.pure, Except.ok.injEq, Prod.mk.injEq] at h
         obtain ⟨rfl, rfl⟩ := h
-        simp [updReq]
+        simp [updReq, (trustUsername_spec st _ _ _ hx).2.2.2.2]
     · simp only [ht, if_false, bind, Except.bind, pure, Except.pure, Except.ok.injEq, Prod.mk.injEq, Bool.false_eq_true] at h
       obtain ⟨rfl, rfl⟩ := h
       simp [updReq]
